@@ -11,6 +11,7 @@ import Sgz.Model.Headers
 import Sgz.Model.Crop
 import Sgz.Model.Reblock
 import Sgz.Model.Irregular
+import Sgz.Model.Export
 /-!
 Line-protocol driver over the executable model (`Sgz/Model`, Mathlib-free).  One request per line, one answer per
 line.  The Python harness sends the same request to the real implementation and diffs canonical answers.
@@ -364,6 +365,14 @@ def handleIrr (ws : List String) : String :=
     | none => "bad-op"
   | _ => "bad-op"
 
+/-- `export B3224 B3225`: format handed to segyio and the two bytes of the exported file header -/
+def handleExport (ws : List String) : String :=
+  match ws.mapM String.toNat? with
+  | some [a, b] =>
+    let fh : Nat → Nat := fun i => if i == 3224 then a else if i == 3225 then b else 0
+    s!"{Export.exportFormat fh} {Export.exportFileHeader fh 3224} {Export.exportFileHeader fh 3225}"
+  | _ => "bad-op"
+
 def handle (line : String) : String :=
   if line.startsWith "hist " then handleHist (line.drop 5).toString else
   if line.startsWith "hwtable " then handleHwTable (line.drop 8).toString else
@@ -379,6 +388,7 @@ def handle (line : String) : String :=
   | "crop" :: rest => handleCrop rest
   | "reblock" :: rest => handleReblock rest
   | "irr" :: rest => handleIrr rest
+  | "export" :: rest => handleExport rest
   | "hashfeed" :: rest => handleHashFeed rest
   | ["ping"] => "pong"
   | _ => "bad-op"
